@@ -15,6 +15,9 @@ func ruleC10Distribute(cx *Ctx) {
 	}
 	ps := newPathSum(cx)
 	ps.trackRanges = true
+	for _, h := range newHelpersOf(fn) {
+		ps.inlineLoops[h] = true
+	}
 	outs := ps.Run(fn, nil)
 	cx.R.AddInt("paths_enumerated", len(outs))
 	if ps.capped {
